@@ -6,7 +6,7 @@
    order, stage order, no overwrite before every stage is done) hold for the execution just observed. *)
 From Coq Require Import List ZArith Arith Bool Lia.
 From DC Require Import Disruptor.Pipeline Disruptor.MultiPub Disruptor.Threads Disruptor.Handlers Disruptor.MultiPipe
-                       Disruptor.PipeReplay Disruptor.MultiReplay.
+                       Disruptor.PipeReplay Disruptor.MultiReplay Disruptor.LiveReplay.
 Import ListNotations.
 
 Section MPR.
@@ -304,3 +304,26 @@ Definition multipipe_replay_entry (l : list Z) : list Z :=
       end
   | _ => [(-3)%Z]
   end.
+
+(* what an accepted multi-producer execution is thereby known to satisfy (stage hypotheses discharged for the configuration's
+   stage sizes): handlers only at published sequences and in order; stage order; no overwrite before every stage is done *)
+Theorem replayed_multi_pipeline_properties N sizes l r' :
+  1 <= N -> sizes <> [] -> Forall (fun n => 1 <= n) sizes ->
+  let H := fold_right Nat.add 0 sizes in let stage := fun h => stage_of sizes h 0 in let last := length sizes - 1 in
+  replay N H stage last pinit l 0 = ((-1)%Z, r') ->
+  let x := pst r' in
+  (forall h i a, h < H -> Handlers.hp (hs x) h = HBatch i a -> pub (ms x) i = true /\ i = S (Handlers.done (hs x) h)) /\
+  (forall h i a g, h < H -> g < H -> Handlers.hp (hs x) h = HBatch i a -> S (stage g) = stage h -> i <= Handlers.done (hs x) g) /\
+  (forall t lo hi, tp (ms x) t = TClaimed lo hi -> forall q h, lo <= q <= hi -> h < H -> q < Handlers.done (hs x) h + N).
+Proof.
+  intros HN Hne Hsz H stage last Hr x.
+  assert (Hle : forall h, h < H -> stage h <= last) by (intros h Hh; apply (LiveReplay.stage_of_le sizes h 0 Hh)).
+  assert (Hhit : forall k, k <= last -> exists h, h < H /\ stage h = k).
+  { intros k Hk. destruct (LiveReplay.stage_of_hit sizes Hsz k 0) as (h & Hh & E); [destruct sizes; [congruence | cbn in *; lia]|].
+    exists h. split; [exact Hh | exact E]. }
+  pose proof (replay_sound N HN H stage last l r' Hr) as HR. fold x in HR.
+  split; [|split].
+  - intros h i a Hh Hb. apply (mp_handles_only_published N HN H stage last Hle Hhit x h i a HR Hh Hb).
+  - intros h i a g Hh Hg Hb Es. apply (mp_stage_order N HN H stage last Hle Hhit x h i a g HR Hh Hg Hb Es).
+  - intros t lo hi Ht q h Hq Hh. apply (mp_no_overwrite_any_stage N HN H stage last Hle Hhit x t lo hi HR Ht q h Hq Hh).
+Qed.
